@@ -5,6 +5,8 @@ use crate::query::Query;
 
 impl Query for Comparison {
     fn process<'a, T: Queryable>(&self, state: State<'a, T>) -> State<'a, T> {
+        #[cfg(jsonpath_rust_verif)]
+        crate::verif::point(11);
         let root = state.root;
         let (lhs, rhs) = self.vals();
         let lhs = lhs.process(state.clone());
